@@ -223,3 +223,26 @@ func (e *Engine) noteWrite(st *St, obj ObjID, g *T) {
 	}
 	e.SharedWrite = append(e.SharedWrite, Record{Cond: c, Msg: fmt.Sprintf("write to pre-existing object #%d", obj), Pos: e.curPos(), Stack: e.where(), Kind: "shared-write"})
 }
+
+// UFOfString applies an uninterpreted function to (string contents, extra scalar args) and
+// returns (value int64-like, error) as a tuple: the error is nil iff a second uninterpreted
+// function of the same arguments is zero.
+func (e *Engine) UFOfString(st *St, name string, s Value, extra []Value) Value {
+	str := s.(*SliceV)
+	n := e.maxLen(st, str)
+	args := []*T{str.Len}
+	for i := 0; i < n; i++ {
+		ci := e.c64(int64(i))
+		b := e.byteAt(st, str, ci)
+		// bytes beyond the length do not matter: normalise them to zero
+		args = append(args, e.S.Ite(e.S.SLt(ci, str.Len), b, e.S.Const(0, 8)))
+	}
+	for _, x := range extra {
+		args = append(args, x.(*T))
+	}
+	val := e.uf(name, args, 64)
+	errv := e.uf(name+".err", args, 64)
+	isErr := e.S.Not(e.S.Eq(errv, e.c64(0)))
+	errVal := e.Merge(isErr, opaqueError(e, st, nil, nil), &IfaceV{Alts: []IfaceAlt{{G: e.S.True}}})
+	return &TupleV{V: []Value{val, errVal}}
+}
